@@ -24,7 +24,7 @@ from props import c14 as J
 
 PID = "C15"
 PREAMBLE = """From Coq Require Import List Bool String ZArith.
-From Cheetah Require Import Ops.ClassTableSpec Ops.Clone Ops.CloneHistory.
+From Cheetah Require Import Ops.ClassTableSpec Ops.Clone Ops.CloneHistory Ops.CloneHistoryStay.
 Import ListNotations. Open Scope string_scope."""
 F12_ATTRS = J.F12_ATTRS
 KNOWN_TEXT = {
@@ -32,6 +32,9 @@ KNOWN_TEXT = {
     "F12-Screen": "Screen.clone() drops is_blocking (not in defining_features) [F12]",
     "F12-Undulator": "Undulator.clone() drops is_active (not in defining_features) [F12]",
     "F12-SpaceChargeKick": "SpaceChargeKick.clone() raises TypeError: defining_features lists grid_shape, which is not a constructor parameter [F12]",
+    "F85-Dipole": "Dipole / RBend built without fringe_integral_exit register ONE tensor under the two names fringe_integral and "
+                  "fringe_integral_exit; clone() gives the clone two separate tensors: the same in-place update of fringe_integral on the "
+                  "original and on its clone changes the exit fringe integral (and the tracking) of the original only [F85]",
     "F80-RBend": "RBend.clone() recomputes dipole_e1/e2 as (dipole_e - angle/2) + angle/2: the clone's face angles (and its tracking) differ "
                  "from the original's by one rounding error [F80]",
 }
@@ -189,6 +192,14 @@ def resolve(root, steps):
 
 def apply_op(root, op):
     t = resolve(root, op["path"])
+    if op.get("inplace"):
+        # an in-place update of the tensor the attribute currently holds: t.mul_(f).add_(z) under no_grad (what an optimiser step,
+        # `elem.k1 *= 2` on a buffer or `elem.k1.data.add_()` do); the homogeneous coordinate of `particles` stays 1
+        x = getattr(t, op["attr"])
+        with torch.no_grad():
+            tgt = x[..., :6] if op["attr"] == "particles" and x.shape[-1] == 7 else x
+            tgt.mul_(op["value"]["mul"]).add_(op["value"]["add"])
+        return
     v = dec(op["value"])
     if op.get("param"):
         v = nn.Parameter(v)
@@ -287,7 +298,7 @@ def gen_history(rng, root, n_ops=None, p_param=0.3, sweep=False, surface_log=Non
     return ops
 
 
-def gen_post(rng, spec, max_singles=24, surface_log=None):
+def gen_post(rng, spec, max_singles=24, surface_log=None, max_inplace=10):
     """Sequences of assignments to be applied IDENTICALLY to the original and to its clone after cloning ("equal objects stay equal
     under equal operations"): one single-assignment sequence for every settable attribute of the object as it is at clone time
     (each generated against that state; at most `max_singles`, sampled), one short random sequence (1-3 assignments), and one
@@ -305,6 +316,21 @@ def gen_post(rng, spec, max_singles=24, surface_log=None):
         ops = gen_history(rng, make(spec), p_param=0.3, order=[cand], surface_log=surface_log, skipped_log=SKIPPED)
         if ops:
             seqs.append(ops)
+    # the same IN-PLACE update of one tensor attribute on both (objects that are identical also agree in which attributes are views
+    # of one tensor): at most `max_inplace` float tensor attributes, sampled
+    scratch = make(spec)
+    tens = []
+    for path, a in cands:
+        try:
+            v = getattr(resolve(scratch, [["e", i] for i in path]), a)
+        except Exception:
+            continue
+        if isinstance(v, torch.Tensor) and v.dtype.is_floating_point and v.numel() and is_declared(resolve(scratch, [["e", i] for i in path]), a):
+            tens.append((path, a))
+    for path, a in (tens if len(tens) <= max_inplace else rng.sample(tens, max_inplace)):
+        prob = "survival" in a or "probabilit" in a
+        seqs.append([{"path": route(rng, scratch, path), "attr": a, "inplace": True, "param": False,
+                      "value": {"mul": 0.5 if prob else rng.choice([1.25, 0.75, 2.0]), "add": 0.0 if prob else rng.choice([0.0625, 0.125])}}])
     short = gen_history(rng, make(spec), n_ops=rng.randrange(1, 4), p_param=0.3, skipped_log=SKIPPED)
     if short:
         seqs.append(short)
@@ -627,9 +653,39 @@ def apply_or_exc(obj, op):
 
 def op_text(op):
     v = op["value"]
+    if op.get("inplace"):
+        return ("/".join(str(s[1]) for s in op["path"]) + "." if op["path"] else "") + f"{op['attr']}.mul_({v['mul']}).add_({v['add']}) in place"
     if isinstance(v, dict) and "tensor" in v:
         v = v["tensor"]
     return ("/".join(str(s[1]) for s in op["path"]) + "." if op["path"] else "") + f"{op['attr']} = {v!r}" + (" (nn.Parameter)" if op.get("param") else "")
+
+
+F85_PAIR = {"fringe_integral": "fringe_integral_exit", "fringe_integral_exit": "fringe_integral"}
+
+
+def is_f85(d, op, x, y):
+    """finding F85, bounded in WHAT is observed: a Dipole / RBend whose fringe_integral_exit was left at its default holds ONE tensor
+    under the two names fringe_integral and fringe_integral_exit (the clone holds two); the in-place update of one of them is the
+    operation; the only differing observable is the OTHER of the two names; on the original it carries the update (equals the
+    updated attribute), on the clone it kept its value (original = mul * clone + add)"""
+    if not op.get("inplace") or op["attr"] not in F85_PAIR or d["cls"] not in ("Dipole", "RBend") or d["attr"] != F85_PAIR[op["attr"]]:
+        return False
+    try:
+        nx, ny = resolve(x, op["path"]), resolve(y, op["path"])
+        if list(p for p, n in nodes_of(x) if n is nx) != [tuple(d["path"])]:
+            return False
+        a, b = getattr(nx, "fringe_integral"), getattr(nx, "fringe_integral_exit")
+        ca, cb = getattr(ny, "fringe_integral"), getattr(ny, "fringe_integral_exit")
+        if a.data_ptr() != b.data_ptr() or ca.data_ptr() == cb.data_ptr():
+            return False
+        u, v = d["_raw"]
+        if u is None or v is None or u[0] != "T" or v[0] != "T":
+            return False
+        want = v[1] * op["value"]["mul"] + op["value"]["add"]
+        return bool(torch.equal(u[1], getattr(nx, op["attr"]).detach())
+                    and torch.allclose(u[1], want, rtol=4 * torch.finfo(u[1].dtype).eps, atol=0))
+    except Exception:
+        return False
 
 
 def stays_equal(spec, rng, listed, loose=None):
@@ -656,6 +712,12 @@ def stays_equal(spec, rng, listed, loose=None):
             ox, oy = observe(x), observe(y)
             f12, f80, other = split_diffs(obs_diffs(ox, oy), ox, listed)
             known += ["F12-" + d["cls"] for d in f12] + (["F80-RBend"] if f80 else [])
+            f85 = [d for d in other if "F85-Dipole" in listed and is_f85(d, op, x, y)]
+            if f85:
+                known.append("F85-Dipole")
+                other = [d for d in other if d not in f85]
+                if not other:
+                    break               # the two objects now differ by the characterised amount: nothing further to compare in this sequence
             if other:
                 bad.append(f"after the same assignment(s) [{done}] on the original and on its clone the two differ in observable "
                            f"state: {clean(other[:3])}")
@@ -884,6 +946,7 @@ def count_post(run, spec):
     run.count("same_ops_sequences", len(post))
     run.count("same_ops_single_assignment_sequences", sum(1 for q in post if len(q) == 1))
     run.count("same_ops_assignments", sum(len(q) for q in post))
+    run.count("same_ops_inplace_update_sequences", sum(1 for q in post if q and q[0].get("inplace")))
 
 
 def discrete_params(cls):
@@ -936,6 +999,43 @@ def flag_cases(run, rows_l, cheetah, cap, surface_log):
             run.add_case(["flags", spec], True)
             run.count("flag_combination_cases")
             run.count("flag_combination_cls_" + row["cname"])
+            count_post(run, spec)
+            report(run, known)
+            if bad:
+                problems.append((spec, bad))
+    return problems
+
+
+def default_cases(run, rows_l, cheetah, surface_log):
+    """every class x every optional constructor parameter LEFT AT ITS DEFAULT in turn (the others non-default): a default that is
+    derived from, or shares a tensor with, another argument is cloned from an object that was built that way"""
+    problems = []
+    for row in rows_l:
+        cls = getattr(cheetah, row["cname"])
+        if row["cname"] == "Segment":
+            continue
+        try:
+            sig = [p for p in introspect.signature(cls) if p.name not in ("device", "dtype", "name")]
+        except Exception:
+            continue
+        optional = [p.name for p in sig if p.default is not inspect.Parameter.empty]
+        for oi, o in enumerate(optional):
+            dtype = (torch.float32, torch.float64)[oi % 2]
+            try:
+                kw, nd = introspect.probe_kwargs(cheetah, cls, oi % 3, dtype, None)
+                kw.pop(o, None)
+                cls(**kw)
+            except Exception:
+                run.count("default_case_rejected_by_constructor")
+                continue
+            spec = element_spec(row["cname"], kw, dtype)
+            spec["post"] = gen_post(run.rng, spec, max_singles=6, surface_log=surface_log, max_inplace=24)
+            try:
+                known, bad, _ = examine(spec, run.rng, cheetah, light=True)
+            except Exception as ex:
+                known, bad = [], [f"examining the case raised {type(ex).__name__}: {ex}"[:300]]
+            run.add_case(["default", spec], True)
+            run.count("one_parameter_at_default_cases")
             count_post(run, spec)
             report(run, known)
             if bad:
@@ -1079,6 +1179,55 @@ def bend_history_cases(run, cheetah, n):
     return terms, descs
 
 
+def flag_history_cases(run, cheetah, n):
+    """Screen(is_blocking, is_active): assignments to the two flags, clone, then the SAME assignments on original and clone; the
+    triple (is_blocking, is_active, does a blocking-sensitive observer see the beam stopped?) of both after the clone and after
+    every later assignment, against the Coq model of two plainly stored flags (Ops/CloneHistoryStay.v: gate_check, vm_compute)."""
+    rng = run.rng
+    B = lambda v: "true" if v else "false"      # noqa: E731
+    beam = cheetah.ParameterBeam.from_parameters(total_charge=torch.tensor(1e-9))
+
+    def view(scr):
+        try:
+            out = scr.track(beam)
+            stopped = bool((out.total_charge == 0).all())
+            return f"({B(bool(scr.is_blocking))}, {B(bool(scr.is_active))}, {B(stopped)})"
+        except Exception:
+            return None
+    terms, descs = [], []
+    for i in range(n):
+        b0, a0 = (i & 1) == 1, (i & 2) == 2                  # all four constructor combinations in turn
+        mk_ops = lambda k: [(rng.choice(["is_blocking", "is_active"]), rng.random() < 0.5) for _ in range(k)]   # noqa: E731
+        pre = mk_ops(rng.randrange(0, 4))
+        post = mk_ops(rng.randrange(1, 5))
+        if i % 5 == 0:
+            post = [("is_active", True)] + post
+        desc = {"is_blocking": b0, "is_active": a0, "pre": pre, "post": post}
+        obs = []
+        try:
+            scr = cheetah.Screen(is_blocking=b0, is_active=a0, name="s")
+            for a, v in pre:
+                setattr(scr, a, v)
+            c = scr.clone()
+            obs.append((view(scr), view(c)))
+            for a, v in post:
+                setattr(scr, a, v)
+                setattr(c, a, v)
+                obs.append((view(scr), view(c)))
+        except Exception as ex:
+            desc["raised"] = f"{type(ex).__name__}: {ex}"[:200]
+            obs = [(None, None)]
+        if any(x is None or y is None for x, y in obs):
+            obs_t = "[]"                                           # an exception: the model (total) never matches an empty trace
+        else:
+            obs_t = coq_list([f"({x}, {y})" for x, y in obs])
+        ops_t = lambda ops: coq_list([f"({'Blocking' if a == 'is_blocking' else 'Active'}, {B(v)})" for a, v in ops])   # noqa: E731
+        terms.append(f"mkgcase {B(b0)} {B(a0)} {ops_t(pre)} {ops_t(post)} {obs_t}")
+        descs.append(desc)
+        run.count("flag_history_model_cases")
+    return terms, descs
+
+
 def main(tier, replay=None):
     warnings.filterwarnings("ignore")
     run = common.Run(PID, tier)
@@ -1093,7 +1242,12 @@ def main(tier, replay=None):
                        "assigned tensors and some constructor arguments being nn.Parameter.  Checked per case: clone vs original on ALL "
                        "observable state (buffers, parameters, public attributes, public properties; bit-equal, dtype, device), no shared "
                        "storage over every reachable tensor, bit-equal tracking of both beam types, independence under mutation in place "
-                       "(no_grad add_, .data, one SGD step on a tracking loss) and by assignment, both directions; element clones also "
+                       "(no_grad add_, .data, one SGD step on a tracking loss) and by assignment, both directions; EQUAL OBJECTS STAY EQUAL "
+                       "UNDER EQUAL OPERATIONS: after the clone, one single-assignment sequence for every settable attribute, a short and a "
+                       "long random sequence are applied identically to original and clone (state compared after every step, tracking "
+                       "after every step of a short sequence), plus the same IN-PLACE update mul_/add_ of each float tensor attribute on "
+                       "both; every class with boolean / Literal constructor parameters also in ALL combinations of them, and with each "
+                       "optional constructor parameter left at its default in turn; Screen flag histories against the Coq plain-flags model (gate_check); element clones also "
                        "compared with vm_compute of the Coq clone model over the class table, RBend/Dipole histories over dyadic values "
                        "with the Coq stored-state/derived-attribute model.  Non-trivial = >=2 non-default parameters; distinct by content.")
     if replay:
@@ -1114,6 +1268,7 @@ def main(tier, replay=None):
     surface_log = {}
     terms, cases, problems = element_cases(run, rows_l, cheetah, 12 if thorough else 5, surface_log)
     problems += flag_cases(run, rows_l, cheetah, 64 if thorough else 8, surface_log)
+    problems += default_cases(run, rows_l, cheetah, surface_log)
     seg_problems = segment_cases(run, cheetah, 600 if thorough else 80, surface_log)
     beam_problems = beam_cases(run, cheetah, 40 if thorough else 6, surface_log)
     run.cov["assigned_surface"] = {k: sorted(v) for k, v in sorted(surface_log.items())}
@@ -1127,8 +1282,18 @@ def main(tier, replay=None):
     hterms, hdescs = bend_history_cases(run, cheetah, 1500 if thorough else 150)
     hfailing = common.run_shards(PID, "history", PREAMBLE, hterms, "hist_check", shard=250)
     run.cov["traces_validated_against_impl"] += len(hterms)
+    try:
+        gterms, gdescs = flag_history_cases(run, cheetah, 600 if thorough else 80)
+    except Exception as ex:
+        gterms, gdescs = [], []
+        run.notes.append(f"flag histories could not be generated: {type(ex).__name__}: {ex}"[:300])
+    gfailing = common.run_shards(PID, "flags", PREAMBLE, gterms, "gate_check", shard=250) if gterms else []
+    run.cov["traces_validated_against_impl"] += len(gterms)
     replay_known(run, rows, cheetah)
-    run.cov["tested_only"] = ["PARTIAL: storage independence (no shared tensor storage; later mutation of one object never shows in the other) is a runtime "
+    run.cov["tested_only"] = ["equal objects stay equal under equal later assignments: proved for the state model (congruence: C15_clone_stays_equal_*), "
+                              "refuted for a getter gated by another attribute (C15_gated_getter_refuted); on the implementation it is tested for "
+                              "every case with the recorded `post` sequences (all observable state after every step, tracking)",
+                              "PARTIAL: storage independence (no shared tensor storage; later mutation of one object never shows in the other) is a runtime "
                               "fact that the Coq model does not represent; it is tested on every case (data_ptr disjointness over every reachable "
                               "tensor + mutation both ways: in place, .data, SGD step, assignment), also with nn.Parameter attributes",
                               "bit-equal tracking of clone vs original (in the model a consequence of equal state; tested with both beam types)",
@@ -1170,6 +1335,13 @@ def main(tier, replay=None):
         run.violation({"kind": "history_correspondence", "broken": "Coq model Ops/CloneHistory.v (hist_check) disagrees with the real RBend/Dipole: "
                        "state after a history of assignments, or the state of its clone", "bend_history": hdescs[hfailing[0]],
                        "relation": "angle, dipole_e1, dipole_e2 of the element after the history and of its clone equal the model's"})
+    elif gfailing:
+        d = gdescs[gfailing[0]]
+        run.violation({"kind": "flag_history_correspondence", "broken": "Coq model Ops/CloneHistoryStay.v (gate_check: two plainly stored flags) "
+                       "disagrees with the real Screen: is_blocking / is_active / beam stopped, on the original or on its clone, after the clone "
+                       "or after one of the later assignments made to both", "screen_flag_history": d,
+                       "relation": "Screen(is_blocking, is_active); pre assignments; clone; the same post assignments on both: both read the "
+                                   "assigned flags and stop the beam iff active and blocking, after every step"})
     elif failing:
         run.violation({"kind": "correspondence", "broken": "Coq model Ops/Clone.v (c15_check) disagrees with Element.clone on this element",
                        "element": cases[failing[0]]}, no_input=True)
@@ -1217,6 +1389,24 @@ def do_replay(run, path):
         c = e.clone()
         bad = [a for a in ("angle", "dipole_e1", "dipole_e2") if not torch.equal(getattr(e, a), getattr(c, a))]
         print("replay:", f"property FAILS on this input: clone differs in {bad}" if bad else "the clone equals the original on this input (the model disagreed about the state itself)")
+        return 1
+    if r.get("kind") == "flag_history_correspondence":
+        d = r["screen_flag_history"]
+        scr = cheetah.Screen(is_blocking=d["is_blocking"], is_active=d["is_active"], name="s")
+        for a, v in d["pre"]:
+            setattr(scr, a, v)
+        c = scr.clone()
+        beam = cheetah.ParameterBeam.from_parameters(total_charge=torch.tensor(1e-9))
+        bad = []
+        for k, (a, v) in enumerate([(None, None)] + [tuple(x) for x in d["post"]]):
+            if a:
+                setattr(scr, a, v)
+                setattr(c, a, v)
+            va = (bool(scr.is_blocking), bool(scr.is_active), bool((scr.track(beam).total_charge == 0).all()))
+            vc = (bool(c.is_blocking), bool(c.is_active), bool((c.track(beam).total_charge == 0).all()))
+            if va != vc:
+                bad.append(f"after {k} later assignment(s): original (is_blocking, is_active, beam stopped) = {va}, clone {vc}")
+        print("replay:", f"property FAILS on this input: {bad[:2]}" if bad else "original and clone agree on this input (the model disagreed with both)")
         return 1
     spec = None
     if r.get("case_kind") in ("element", "segment", "beam"):
